@@ -69,6 +69,13 @@ def structures(tier):
                 n = len(ch.encode())
                 for off in range(1, n):
                     sts.append({'kind': 'utf8', 'what': what, 'pre': b - off, 'ch': ch, 'post': 5})
+    # two texts one after the other on one parser (a second lookup of a vnode id, a second definition of a string id, a
+    # renamed thread): the later one is reassembled from its own records
+    for la, lb in ((3, 30), (30, 3), (25, 25), (0, 5)) if tier == 'quick' else ((3, 30), (30, 3), (25, 25), (0, 5), (60, 24), (24, 60), (5, 0)):
+        for what in ('lookup', 'gstring', 'tname'):
+            sts.append({'kind': 'twice', 'what': what, 'la': la, 'lb': lb})
+            if (la, lb) == (3, 30):
+                sts.append({'kind': 'twice', 'what': what, 'la': la, 'lb': lb, 'pre': True})     # arbitrary parser tables
     decs = path_decoders()
     for n in decs:
         for k in (0, 1, 2, 3):
@@ -136,7 +143,69 @@ def _same_text(ctx, s, text):
     return bytes_items_eq(items, list(text.items) if hasattr(text, 'items') else list(text))
 
 
+def run_twice(ctx, st):
+    by_id, by_name = sweep.codes()
+    ta, tb = _text(ctx, 'ta', st['la']), _text(ctx, 'tb', st['lb'])
+    ka, kb = ctx.int('ka'), ctx.int('kb')         # vnode ids / string ids (may coincide)
+    what = st['what']
+    if what == 'lookup':
+        code = by_name['VFS_LOOKUP']
+        ra, ts = _records(K.chunk_lookup(ta, ka), code, 100, False)
+        rb, _ = _records(K.chunk_lookup(tb, kb), code, ts + 5, False)
+    elif what == 'gstring':
+        code = by_name['TRACE_STRING_GLOBAL']
+        ctx.assume(And(ka != 0, kb != 0))
+        ra, ts = _records(K.chunk_string(ta, 5, ka), code, 100, False)
+        rb, _ = _records(K.chunk_string(tb, 5, kb), code, ts + 5, False)
+    else:
+        code = by_name['TRACE_STRING_THREADNAME']
+        ra, ts = _records(K.chunk_simple(ta), code, 100, False)
+        rb, _ = _records(K.chunk_simple(tb), code, ts + 5, False)
+    if st.get('pre'):
+        tabs = sweep.havoc_tables(ctx)
+        p = sweep.parser_on(tabs)
+        if not ctx.symbolic:
+            try:
+                for _, ev in ra + rb:
+                    p.feed(ev)
+            except Exception:       # noqa
+                pass
+            p = sweep.parser_on({n: dict(t.initial) for n, t in tabs.items()})
+    else:
+        p = sweep.new_parser()
+    first, second = [], []
+    try:
+        for _, ev in ra:
+            r = p.feed(ev)
+            if r is not None:
+                first.append(r)
+        for _, ev in rb:
+            r = p.feed(ev)
+            if r is not None:
+                second.append(r)
+    except Exception as e:      # noqa
+        __import__('vxlib.symx.core', fromlist=['x']).proxy_rejected(e)
+        ctx.check('C08/twice/%s/no-error' % what, False, '%s: %s' % (type(e).__name__, e)); ctx.reach(); return
+    L = 'C08/twice/' + what
+    ctx.check(L + '/one-trace-each', len(first) == 1 and len(second) == 1, '%d and %d traces' % (len(first), len(second)))
+    if len(first) == 1 and len(second) == 1:
+        attr = {'lookup': 'path', 'gstring': 'vstr', 'tname': 'name'}[what]
+        ctx.check(L + '/first-text', _same_text(ctx, getattr(first[0], attr), ta))
+        ctx.check(L + '/second-text', _same_text(ctx, getattr(second[0], attr), tb), 'the later text is not reassembled from its own records')
+        if what == 'lookup':
+            ctx.check(L + '/second-vnode', second[0].vnode_id == kb)
+    if what == 'gstring':
+        got = p.global_strings.get(kb)
+        ctx.check(L + '/table-holds-the-later-definition', got is not None and _same_text(ctx, got, tb))
+    if what == 'tname':
+        got = p.tids_names.get(TID)
+        ctx.check(L + '/table-holds-the-later-name', got is not None and _same_text(ctx, got, tb))
+    ctx.reach()
+
+
 def run(ctx, st):
+    if st['kind'] == 'twice':
+        return run_twice(ctx, st)
     return {'lookup': run_lookup, 'gstring': run_gstring, 'tname': run_tname, 'syscall': run_syscall, 'utf8': run_utf8}[st['kind']](ctx, st)
 
 
